@@ -200,6 +200,14 @@ func (r *qrun) consult(item int, inner func() time.Duration) time.Duration {
 	r.grants = append(r.grants, [3]int64{int64(item), r.vnow, g})
 	return time.Duration(d)
 }
+// release shuts the queue down and lets the fake clock tick once more: client-go's
+// updateUnfinishedWorkLoop only notices the shutdown on a tick of its ticker, which on a fake
+// clock never comes by itself (the goroutine would stay for the rest of the run).
+func (r *qrun) release(shutdown func()) {
+	shutdown()
+	r.fc.Step(2 * time.Second)
+}
+
 func (r *qrun) Forget(int)          {}
 func (r *qrun) NumRequeues(int) int { return 0 }
 
@@ -214,7 +222,7 @@ func snap(x int64) int64 {
 // i.e. it has consumed what AddAfter sent and handled the timers the fake clock fired (both
 // make the goroutine runnable before returning to the caller). Model-free synchronisation.
 func quiesce() {
-	buf := make([]byte, 1<<17)
+	buf := make([]byte, 1<<20)
 	for i := 0; i < 200000; i++ {
 		n := runtime.Stack(buf, true)
 		found, ok := false, true
@@ -321,7 +329,7 @@ func runQueue(in qinput) *qrun {
 	r.base = time.Unix(1700000000, 0)
 	r.fc = clocktesting.NewFakeClock(r.base)
 	r.q = k8swq.NewTypedRateLimitingQueueWithConfig[int](r, k8swq.TypedRateLimitingQueueConfig[int]{Clock: r.fc})
-	defer r.q.ShutDown()
+	defer r.release(r.q.ShutDown)
 	r.tw = &twin{wait: map[int]*wentry{}, dirty: map[int]bool{}}
 	di, ti := 0, 0
 	nextDur := func() int64 {
